@@ -101,6 +101,14 @@ def shared_jobs(tier, s0, names=None):
                          {'d': 1, 'range': 'all', 'kinds': ('sched', 'worker')}))
             for w in (1, 3, 4, 16):
                 jobs.append((_scn(n, seed=s0, mode=mode, workers=w), {'d': 0}))
+    # (C2) tasks that carry an integer seed, in every mode (the library seeds the generator from it; the task object is
+    #      pickled into process workers)        (C3) tie-heavy objectives under the pools
+    for n in names:
+        jobs.append((_scn(n, seed=s0, task_seed=7), {'d': 0}))
+        for mode in ('thread', 'process'):
+            jobs.append((_scn(n, seed=s0, mode=mode, workers=2, task_seed=7), {'d': 0}))
+            for obj in ('plateau', 'step'):
+                jobs.append((_scn(n, 'cont3z', 'min', 3, seed=s0, mode=mode, workers=2, obj=obj), {'d': 0}))
     # (D) stopping options (observational C04)
     for n in names:
         for so in STOP_OPTIONS:
